@@ -335,9 +335,11 @@ pub fn vf_stack_default() -> (r: Stack)
 pub fn vf_state_default() -> (r: State)
     ensures !r.proto_emitted, r.stack.inner@.len() == 0, r.memo@ == Map::<usize, StackObjectRef>::empty()
 { unimplemented!() }
-/// f64::clamp(0.0, 1.0): no float arithmetic in Verus; nothing is claimed about the value
+/// f64::clamp(0.0, 1.0): no float arithmetic in Verus; only the extremes are stated (1.0 stays 1.0, 0.0 stays 0.0)
 #[verifier::external_body]
-pub fn vf_clamp01(rate: f64) -> (r: f64) { unimplemented!() }
+pub fn vf_clamp01(rate: f64) -> (r: f64)
+    ensures vf_rate_one(rate) ==> vf_rate_one(r), vf_rate_zero(rate) ==> vf_rate_zero(r)
+{ unimplemented!() }
 #[verifier::external_body]
 pub fn vf_mutators_is_empty(m: &VfMutators) -> (r: bool)
     ensures r == (vf_mutators_len_spec(m) == 0)
